@@ -34,4 +34,54 @@ def run(tier):
                 if nv <= 3:
                     ctx.violation({"layer": "prog", "cases": [c], "implementation_answer": o, "why": "the run performed %d executions under an iteration budget of %d" % (n, iters)})
     ctx.sample({"case": ic[0][0], "impl": out[0]})
+    # time limit: the body takes `sleep` ms of real time; the clock readings of the model (runner_loop_t) are derived from
+    # the measured end times of the invocations; readings too close to the limit are left open (both answers accepted)
+    SLACK_LO, SLACK_HI = 3000, 40000     # microseconds
+    tl = []
+    for i in range(4 if tier == "quick" else 24):
+        kind = ["random", "pct", "rr", "urw"][i % 4]
+        limit, sleep = rng.choice([(50, 120), (200, 120), (30, 100), (300, 120)])
+        tl.append("timelimit %s %d %d %d %d" % (kind, rng.getrandbits(32), rng.choice([20, 50]), limit, sleep))
+    tout = ctx.run_impl("prog", tl)
+    ctx.evaluations += len(tl)
+    mcases, minfo = [], []
+    for c, o in zip(tl, tout):
+        f = c.split()
+        budget, limit = int(f[3]), int(f[4]) * 1000
+        if not o.startswith("TL N="):
+            ctx.violation({"layer": "prog", "cases": [c], "implementation_answer": o, "why": "a run with a time limit failed"})
+            continue
+        n = int(o.split("N=")[1].split()[0])
+        b = int(o.split("B=")[1].split()[0])
+        ts = o.split("times=")[1].split()[0]
+        ends = [int(x.split("-")[1]) for x in ts.split(",")] if ts != "-" else []
+        end = int(o.split("end=")[1])
+        if n != b:
+            ctx.violation({"layer": "prog", "cases": [c], "implementation_answer": o, "why": "returned count %d differs from the %d body invocations" % (n, b)})
+            continue
+        # direct reading of the property: an invocation never starts after the limit was exceeded at the end of the previous one
+        late = [j + 1 for j, e in enumerate(ends[:-1]) if e > limit + SLACK_HI]
+        if late:
+            ctx.violation({"layer": "prog", "cases": [c], "implementation_answer": o,
+                           "why": "iterations %s were started although the time limit of %d us had expired before them (previous invocation ended at %s us)" % (late, limit, [ends[j - 1] for j in late])})
+            continue
+        if n < budget and end < limit:
+            ctx.violation({"layer": "prog", "cases": [c], "implementation_answer": o, "why": "the run stopped after %d of %d iterations at %d us, before the limit of %d us" % (n, budget, end, limit)})
+            continue
+        # model: clock reading i (before iteration i) = end of invocation i-1 > limit; ambiguous readings are skipped
+        amb = any(limit - SLACK_LO <= e <= limit + SLACK_HI for e in ends)
+        if amb:
+            ctx.dist("timelimit.ambiguous", 1)
+            continue
+        bits = "0" + "".join("1" if e > limit else "0" for e in ends)
+        mcases.append("timelimit %d %s a0 sp1;yd;jn0|yd" % (budget, bits))
+        minfo.append((c, o, n))
+    mres = ctx.run_model("prog", mcases) if mcases else []
+    for (c, o, n), mc, mr in zip(minfo, mcases, mres):
+        ctx.dist("timelimit.compared", 1)
+        if mr != "N=%d" % n:
+            ctx.violation({"layer": "prog", "cases": [c, mc], "implementation_answer": o, "model_answer": mr,
+                           "why": "count under a time limit differs from the model's runner_loop_t on the measured clock readings"})
+    if tl:
+        ctx.sample({"case": tl[0], "impl": tout[0]})
     return ctx.finish()
